@@ -850,6 +850,169 @@ func run(c *hc.Ctx) error {
 		add(line, out)
 	}
 
+	// ---- 3c. bin.Fields: Has / Set / Unset / Zero / Encode / Decode
+	nf := c.N(6000, 60000)
+	for i := 0; i < nf; i++ {
+		f0 := bin.Fields(uint32(r.U64()))
+		if r.Chance(30) {
+			f0 = bin.Fields(hc.Pick[uint32](r, 0, 1, 1<<31, 1<<32-1, 1<<16, 0x80000001))
+		}
+		f := f0
+		var ops, outs []string
+		pan := func() (p any) {
+			defer func() { p = recover() }()
+			for j := r.Range(1, 6); j > 0; j-- {
+				n := hc.Pick(r, 0, 1, 15, 30, 31, 32, 33, 63, 64, 70, r.Intn(32))
+				switch r.Intn(5) {
+				case 0:
+					ops = append(ops, fmt.Sprintf("has:%d", n))
+					outs = append(outs, map[bool]string{true: "1", false: "0"}[f.Has(n)])
+				case 1:
+					ops = append(ops, fmt.Sprintf("set:%d", n))
+					f.Set(n)
+					outs = append(outs, strconv.FormatUint(uint64(f), 10))
+					if n < 32 && !f.Has(n) {
+						c.Fail("fields-set", fmt.Sprintf("fields %d set:%d", uint32(f0), n), "Has is false right after Set")
+					}
+				case 2:
+					ops = append(ops, fmt.Sprintf("unset:%d", n))
+					f.Unset(n)
+					outs = append(outs, strconv.FormatUint(uint64(f), 10))
+					if f.Has(n) {
+						c.Fail("fields-unset", fmt.Sprintf("fields %d unset:%d", uint32(f0), n), "Has is true right after Unset")
+					}
+				case 3:
+					ops = append(ops, "zero")
+					outs = append(outs, map[bool]string{true: "1", false: "0"}[f.Zero()])
+				default:
+					ops = append(ops, "enc")
+					var b bin.Buffer
+					_ = f.Encode(&b)
+					outs = append(outs, hc.Hex(b.Buf))
+					var g bin.Fields
+					if err := g.Decode(&bin.Buffer{Buf: append([]byte{}, b.Buf...)}); err != nil || g != f || b.Len() != 4 {
+						c.Fail("roundtrip:fields", fmt.Sprintf("fields %d enc", uint32(f)), fmt.Sprintf("decoded %d err %v", uint32(g), err))
+					}
+				}
+			}
+			return nil
+		}()
+		line := fmt.Sprintf("fields %d %s", uint32(f0), strings.Join(ops, " "))
+		c.Eval(line, true)
+		c.Count("fields")
+		if pan != nil {
+			c.Fail("panic:fields", line, fmt.Sprint(pan))
+			continue
+		}
+		add(line, strings.Join(outs, " "))
+		if i%4 == 0 {
+			d := r.Bytes(hc.Pick(r, 0, 3, 4, 5, 8))
+			var g bin.Fields
+			b := &bin.Buffer{Buf: append([]byte{}, d...)}
+			out := ""
+			if err := g.Decode(b); err != nil {
+				out = "err " + errTag(err)
+			} else {
+				out = fmt.Sprintf("ok %d %s", uint32(g), hc.Hex(b.Buf))
+			}
+			add("fdec "+hc.Hex(d), out)
+		}
+	}
+
+	// ---- 3d. Buffer housekeeping and Pool reuse: op sequences on one buffer
+	nb := c.N(6000, 60000)
+	pool := bin.NewPool(hc.Pick(r, 0, 16, 1024))
+	for i := 0; i < nb; i++ {
+		init := r.Bytes(r.Range(0, 24))
+		buf := pool.Get()
+		buf.Put(init)
+		var ops, outs []string
+		func() {
+			defer func() {
+				if p := recover(); p != nil {
+					outs = append(outs, "panic")
+					buf = &bin.Buffer{} // the panicking buffer is not recycled
+				}
+			}()
+			for j := r.Range(1, 7); j > 0; j-- {
+				state := func() { outs = append(outs, "="+hc.Hex(buf.Buf)) }
+				switch r.Intn(10) {
+				case 0:
+					n := hc.Pick(r, 0, 1, 4, 17, -1, r.Range(0, 40))
+					ops = append(ops, fmt.Sprintf("resetn:%d", n))
+					buf.ResetN(n)
+					state()
+				case 1:
+					n := hc.Pick(r, 0, 1, 4, -1, r.Range(0, 20))
+					ops = append(ops, fmt.Sprintf("expand:%d", n))
+					buf.Expand(n)
+					state()
+				case 2:
+					n := hc.Pick(r, 0, 1, buf.Len(), buf.Len()+1, r.Range(0, 12))
+					if r.Chance(85) && n > buf.Len() {
+						n = buf.Len()
+					}
+					ops = append(ops, fmt.Sprintf("skip:%d", n))
+					buf.Skip(n)
+					state()
+				case 3:
+					k := hc.Pick(r, 0, 1, 3, 8, 100)
+					ops = append(ops, fmt.Sprintf("read:%d", k))
+					p := make([]byte, k)
+					n, err := buf.Read(p)
+					eof := "0"
+					if err == io.EOF {
+						eof = "1"
+					} else if err != nil {
+						eof = "?"
+					}
+					outs = append(outs, hc.Hex(p[:n])+":"+eof)
+				case 4:
+					raw := r.Bytes(r.Range(0, 9))
+					ops = append(ops, "put:"+hc.Hex(raw))
+					buf.Put(raw)
+					state()
+				case 5:
+					ops = append(ops, "copy")
+					cp := buf.Copy()
+					outs = append(outs, hc.Hex(cp))
+					if len(cp) > 0 && len(buf.Buf) > 0 && &cp[0] == &buf.Buf[0] {
+						c.Fail("copy-aliases", "buf "+hc.Hex(init)+" "+strings.Join(ops, " "), "Copy returned the buffer's own memory")
+					}
+				case 6:
+					ops = append(ops, "len")
+					outs = append(outs, strconv.Itoa(buf.Len()))
+				case 7:
+					ops = append(ops, "reset")
+					buf.Reset()
+					state()
+				case 8: // back to the pool dirty, then a fresh Get must be empty
+					ops = append(ops, "poolget")
+					pool.Put(buf)
+					buf = pool.Get()
+					state()
+				default:
+					n := hc.Pick(r, 0, 1, 8, 33, r.Range(0, 64))
+					ops = append(ops, fmt.Sprintf("poolsize:%d", n))
+					pool.Put(buf)
+					buf = pool.GetSize(n)
+					state()
+					for _, x := range buf.Buf {
+						if x != 0 {
+							c.Fail("pool-dirty", "buf "+hc.Hex(init)+" "+strings.Join(ops, " "), "GetSize returned a buffer with stale bytes")
+							break
+						}
+					}
+				}
+			}
+		}()
+		pool.Put(buf)
+		line := "buf " + hc.Hex(init) + " " + strings.Join(ops, " ")
+		c.Eval(line, true)
+		c.Count("bufops")
+		add(line, strings.Join(outs, " "))
+	}
+
 	// ---- 4. length prefixes up to 2^24-1 (no payload through the pipe)
 	lens := []int{0, 1, 2, 3, 4, 252, 253, 254, 255, 256, 257, 65535, 65536, 65537, 1 << 20, 1<<24 - 5, 1<<24 - 4, 1<<24 - 3, 1<<24 - 2, 1<<24 - 1}
 	extra := c.N(40, 400)
